@@ -6,6 +6,7 @@ import (
 	"fmt"
 	"os"
 	"runtime"
+	"sort"
 	"strings"
 	"sync"
 	"testing"
@@ -84,10 +85,27 @@ func run(f *sfnt.Font, o op) (res string) {
 				res = fmt.Sprintf("%v %x", err, stats.Hash(buf.Bytes()))
 			}
 		case "Subset":
-			s := f.Subset(subsetList(n, o.Arg))
+			list := subsetList(n, o.Arg)
+			s := f.Subset(list)
 			var buf bytes.Buffer
 			k, err := s.Write(&buf)
-			res = fmt.Sprintf("%d %v %x", k, err, stats.Hash(buf.Bytes()))
+			// The order in which glyphs needed by composites are appended is
+			// not fixed (it varies from call to call even without
+			// concurrency): render the result independently of that order.
+			desc := func(gid glyph.ID) string {
+				return fmt.Sprintf("%v/%v/%q", s.GlyphWidth(gid), s.GlyphBBox(gid), s.GlyphName(gid))
+			}
+			var sb strings.Builder
+			fmt.Fprintf(&sb, "n=%d len=%d err=%v", s.NumGlyphs(), k, err)
+			for i := range list {
+				sb.WriteString(" " + desc(glyph.ID(i)))
+			}
+			var extra []string
+			for i := len(list); i < s.NumGlyphs(); i++ {
+				extra = append(extra, desc(glyph.ID(i)))
+			}
+			sort.Strings(extra)
+			res = sb.String() + " +" + strings.Join(extra, ",")
 		case "Clone":
 			c := f.Clone()
 			res = fmt.Sprintf("%q %d", c.FamilyName, c.NumGlyphs())
